@@ -202,7 +202,7 @@ theorem callGoal_ok' {fl : Bool} (g : Term) (K : Cont) (env : Env) (m : MS) (g0 
   have hcc : compileCall g0 env = .ok ([clauseOf (qClause g')], argList (qHead g')) := by
     unfold compileCall
     simp only [ha]
-    have := (clauseOf_spec (qClause g') (clauseS_qClause hb hw)).1
+    have := (clauseOf_spec (qClause g') (clauseC_of_S (clauseS_qClause hb hw))).1
     change (match compile (toRep (qClause g')) with
       | .ok cs => Except.ok (cs, (termVars g' []).map Term.var)
       | .error e => .error e) = _
